@@ -101,21 +101,20 @@ def nontrivial(case, o):
 
 
 CLAIMED = True
-LEVEL_TEXT = ("Machine-checked proof (Coq 8.16 + std++) over the executable ConfigState model of diff and DiffMap: the "
+LEVEL_TEXT = ("Machine-checked proof (Coq 8.16 + std++) over the executable ConfigState model of diff and DiffMap: applying "
+              "diff(A,B) to A is accepted request by request and reaches B for all reachable A, B (apply_diff); the "
               "merge-join is sound and complete on key-sorted inputs for every key order, the difference of a "
               "configuration with itself is empty in every section; the model of diff (all sections, in source order) "
               "is tied to the code by a differential run: for pairs of reachable configurations the real A.diff(&B) is "
               "dispatched on a clone of A (release profile) and the number of requests, the number rejected and whether "
               "B is reached are compared with the extracted model; the property's oracle is evaluated on the implementation.")
-LEVEL_NOTE = ("PARTIAL: apply_diff (every request of diff(A,B) accepted by an instance holding A, which then holds B) is "
-              "proved section by section for the listeners of all four kinds (removed / added / changed with "
-              "re-activation and deactivation / late activation), clusters (merge-join composed with the handlers), "
-              "http/https frontends and certificates, and composed over the whole section order for reachable-invariant "
-              "states whose backends and tcp/udp frontends agree (apply_diff_sections); the backends and tcp/udp frontend "
-              "sections are covered by the correspondence runs only. No cross-section precondition is needed: ConfigState "
-              "checks no reference between maps. Also proved: diff_map soundness/completeness and key-uniqueness for every "
-              "key order, diff A A = []. Equality is modulo empty buckets and the order inside tcp/udp frontend buckets: "
-              "after a diff the Vec order follows HashSet iteration; it is not observable through routing, hash_state or any "
-              "replay path (finding closed, the debug assertion that compared it was relaxed). HashSet iteration order "
-              "inside diff is not modelled.")
+LEVEL_NOTE = ("apply_diff is proved at full strength on the model: for any two reachable configurations every request of "
+              "diff(A,B) is accepted by an instance holding A, which then holds B (all eleven maps), composed from one "
+              "theorem per section (listeners of four kinds incl. re-activation / deactivation, clusters and backends through "
+              "the merge-join, http/https frontends, tcp/udp frontends, certificates by value). No cross-section precondition "
+              "is needed: ConfigState checks no reference between maps. Equality is modulo empty buckets and the order inside "
+              "tcp/udp frontend buckets: after a diff the Vec order follows HashSet iteration; it is not observable through "
+              "routing, hash_state or any replay path (finding closed). HashSet iteration order inside diff is not "
+              "modelled (the model emits map order; the theorem holds for the model's order and the per-section lemmas for any "
+              "duplicate-free order). The tie to the code is the correspondence run (request counts, rejections, target reached).")
 TECHNIQUE = "Rocq/Coq proof over an executable Gallina model (std++ gmap) + differential correspondence (extracted OCaml vs real crate)"
